@@ -29,7 +29,7 @@ class C06(Prop):
     MODES = ("url",)
     LONG_BIAS = 0.2
     BACKENDS = ("file", "file", "memory")
-    WEIGHTS = {"page": 6, "pages": 2, "links": 2, "batch": 2, "again": 1, "create": 2, "delete": 2, "addprefix": 1,
+    WEIGHTS = {"page": 6, "pages": 2, "links": 2, "batch": 2, "again": 4, "create": 2, "delete": 3, "addprefix": 1,
                "rmprefix": 1, "move": 1, "rule": 4, "unrule": 2, "reopen": 2, "clear": 1}
     QUICK = (40, 22)
     THOROUGH = (200, 40)
